@@ -43,8 +43,13 @@ std::optional<std::pair<std::string, std::uint16_t>> parse_endpoint(const std::s
 void Node::note_peer_seed(const ChunkId&, const PeerId&) {}
 void Node::note_local_leecher(const ChunkId&) {}
 void Node::refresh_provider_count(PendingFetchState&, std::chrono::steady_clock::time_point, bool) {}
+#ifdef VERIF_REAL_PPF
+#include SNIP_PPF
+#else
 void Node::process_pending_fetches() {}
-bool Node::send_chunk_request_direct(const ChunkId&, const PeerId&) { return nondet_bool("request_sent"); }
+#endif
+static unsigned g_send_calls[2] = {0, 0};     // dispatch attempts per chunk (chunk_n(0) / chunk_n(1)) since the harness last reset them
+bool Node::send_chunk_request_direct(const ChunkId& c, const PeerId&) { ++g_send_calls[c[0] == 0xC1 ? 1 : 0]; return nondet_bool("request_sent"); }
 bool Node::request_chunk(const PeerId&, const std::string&, std::uint16_t, const std::string&) { return false; }
 // the send path (manifest lookup, record lookup, signing, transport) is cut: whether a request can be served and sent is arbitrary;
 // exactly like the real dispatch_upload, a slot is taken (note_upload_start) only after a successful send
@@ -268,3 +273,68 @@ extern "C" void h_c21_independence(unsigned long which_op) {
     verif_assert(va == vb, "C21: rejections, lock-outs and their expiry never let an announce through that the minimum interval / burst window forbid (nor block one they allow)");
     verif_reach("compared");
 }
+// ---------------------------------------------------------------- C24: the real process_pending_fetches (compiled in with VERIF_REAL_PPF)
+// events (base-3 digits of seq): 0 = assigned-fetch announcement (schedule_assigned_fetch, which runs process_pending_fetches),
+// 1 = tick (the clock advances, process_pending_fetches), 2 = the chunk arrives (stored, and - as receive_chunk does - the pending entry
+// cleared; or only stored, e.g. by a local store). Peers, chunks, send outcomes, clock advances, retry settings and manifest expiry symbolic.
+#ifdef VERIF_REAL_PPF
+extern "C" void h_c24_ticks(unsigned long k, unsigned long seq) {
+    PartialNode pn; Node* n = pn.node();
+    const unsigned limit = nondet_u8("max_parallel_requests") & 3; n->config_.fetch_max_parallel_requests = static_cast<std::uint16_t>(limit);
+    const unsigned attempt_limit = nondet_u8("attempt_limit") & 3; n->config_.fetch_retry_attempt_limit = static_cast<std::uint8_t>(attempt_limit);
+    n->config_.fetch_retry_success_interval = std::chrono::seconds(nondet_u8("success_interval_s") & 7);
+    n->config_.fetch_retry_initial_backoff = std::chrono::seconds(nondet_u8("initial_backoff_s") & 7);
+    n->config_.fetch_retry_max_backoff = std::chrono::seconds(nondet_u8("max_backoff_s") & 15);
+    verif_env::start_clock();
+    constexpr long long kWallBase = 1700000000LL * kNs;
+    const long long steady0 = verif_env::g_steady_ns;
+    verif_env::g_system_ns = kWallBase;
+    // the announced manifest either never expires (0) or expires 0..63 s after the start
+    const bool expiring = nondet_bool("manifest_expires"); const unsigned life = nondet_u8("manifest_life_s") & 63;
+    g_manifest = protocol::Manifest{}; g_manifest.threshold = 1;
+    if (expiring) g_manifest.expires_at = std::chrono::system_clock::time_point(std::chrono::duration_cast<std::chrono::system_clock::duration>(std::chrono::nanoseconds(kWallBase + static_cast<long long>(life) * kNs)));
+    bool held[2] = {false, false};
+    g_send_calls[0] = g_send_calls[1] = 0;
+    for (unsigned long i = 0; i < k; ++i) {
+        verif_env::advance_clock(); verif_env::g_system_ns = kWallBase + (verif_env::g_steady_ns - steady0);
+        const unsigned op = static_cast<unsigned>(seq % 3); seq /= 3;
+        // which peer / chunk an event concerns is chosen only where it matters (announcement: both, arrival: the chunk)
+        unsigned p = 0, c = 0;
+        if (op != 1) { const bool cb = nondet_bool("chunk"); if (i == 0) verif_assume(!cb); c = verif_concretize(cb, 2) ? 1 : 0; }
+        if (op == 0) { const bool pb = nondet_bool("peer"); if (i == 0) verif_assume(!pb); p = verif_concretize(pb, 2) ? 1 : 0; }
+        const std::string key = chunk_id_to_string(chunk_n(c));
+        if (op == 0) {
+            protocol::AnnouncePayload a{}; a.chunk_id = chunk_n(c); a.peer_id = peer_n(p); a.manifest_uri = "eph://m"; a.assigned_shards.push_back(1);
+            g_manifest.chunk_id = chunk_n(c);
+            g_send_calls[c] = 0;                       // attempts are counted per announcement
+            n->schedule_assigned_fetch(a); verif_reach("announce");
+        } else if (op == 1) {
+            n->process_pending_fetches(); verif_reach("tick");
+            const long long wall = verif_env::g_system_ns;
+            for (const auto& e : n->pending_chunk_fetches_) {
+                const unsigned ec = e.second.chunk_id[0] == 0xC1 ? 1 : 0;
+                verif_assert(!held[ec], "C24: a pending fetch is dropped by the next tick once the chunk is held locally");
+                const auto exp = e.second.manifest_expires;
+                verif_assert(exp == std::chrono::system_clock::time_point{} || std::chrono::duration_cast<std::chrono::nanoseconds>(exp.time_since_epoch()).count() > wall, "C24: a pending fetch is dropped by the next tick once its manifest has expired");
+            }
+        } else {
+            ChunkData d; d.push_back(1);
+            n->chunk_store_.put(chunk_n(c), std::move(d), std::chrono::seconds(3600)); held[c] = true;
+            if (nondet_bool("arrival_clears_entry")) n->clear_pending_fetch(key);
+            verif_reach("arrival");
+        }
+        std::size_t total = 0;
+        for (unsigned q = 0; q < 2; ++q) {
+            std::size_t in_flight = 0; for (const auto& e : n->pending_chunk_fetches_) if (e.second.in_flight && e.second.peer_id == peer_n(q)) ++in_flight;
+            const auto it = n->active_peer_requests_.find(peer_id_to_string(peer_n(q)));
+            const std::size_t counter = it == n->active_peer_requests_.end() ? 0 : it->second;
+            verif_assert(counter == in_flight, "C24: a peer's in-flight count equals its outstanding requests over announcements, ticks, time-outs and arrivals (zero when none is outstanding)");
+            if (limit) verif_assert(counter <= limit, "C24: no peer has more in-flight requests than the configured limit");
+            total += in_flight;
+        }
+        (void)total;
+        if (attempt_limit) for (unsigned c2 = 0; c2 < 2; ++c2)
+            verif_assert(g_send_calls[c2] <= attempt_limit, "C24: no more requests than the attempt limit are sent for one announced fetch (it is dropped once the limit is exhausted)");
+    }
+}
+#endif
